@@ -171,6 +171,25 @@ def parse(ctx, P):
         # the only removal is the single line break before the boundary: truncate by 1 or 2, chosen by ends_with("\r\n")
         tr = b.calls(r'String::truncate$')
         ctx.check(P + ':S16-3:one-line-break-removed', 'R-table', 'exactly two truncate sites (CRLF / LF line break before the signature boundary)', len(tr) == 2, function=b.path)
+    hb = ctx.body(CT + 'has_rest')
+    if hb is not None:
+        # the trailing-data scan judges only the octets the read returned: the slice it iterates over is cut at the read count,
+        # and it keeps reading until the source is exhausted
+        from rules.common import single_defs, resolve_value
+        defs = single_defs(hb)
+        reads = call_blocks(hb, r'io::Read::read$')
+        cut = False
+        for i, t in hb.calls(r'ops::Index::index$|slice::<impl \[T\]>::get$|\[T\]::get$'):
+            kk, rv = resolve_value(hb, t['args'][1], defs)
+            if kk == 'rv' and rv['k'] == 'agg' and rv['o'] and has_origin(hb.operand_origins(rv['o'][-1]), r'call:.*io::Read::read$'):
+                cut = True
+        whole = [i for i, t in hb.calls(r'slice::<impl \[T\]>::iter$|\[T\]::iter$') if not has_origin(hb.operand_origins(t['args'][0]), r'call:.*(ops::Index::index|\[T\]>::get|\[T\]::get)$')]
+        import callgraph
+        edges = {i: set(j for j, _ in hb.succ(i)) for i in range(len(hb.blocks)) if not hb.blocks[i]['c']}
+        looped = any((len(c) > 1 or c[0] in edges.get(c[0], ())) and set(c) & set(reads) for c in callgraph.sccs(edges))
+        ctx.check(P + ':S16-3:trailing-scan-only-read-octets', 'R-dom', 'has_rest inspects buf[..read] (not the stale remainder of its buffer) and reads until the source is exhausted',
+                  cut and not whole and looped and bool(reads), function=hb.path,
+                  missing=None if (cut and not whole and looped) else 'the whole 64-octet buffer is scanned after a short read: the zero / stale tail counts as trailing data, so 1..63 trailing line breaks are rejected and 64 accepted')
     wb = ctx.body(CT + 'CleartextSignedMessage::to_armored_writer')
     rb = ctx.body(CT + 'read_cleartext_body')
     if wb is not None and rb is not None:
